@@ -35,6 +35,14 @@ func pkInsDelEq(ms int64) plPack {
 func pkTwoIns(ms int64) plPack {
 	return plPack{Msgs: []plMsg{{Kind: "ins", Ms: ms}, {Kind: "ins", Ms: ms}}, TickMs: ms, TickLg: 5}
 }
+// runs of three and more data messages with one source time (a large insert split into several messages, a delete
+// that spans partitions): "equal stays equal" for every member of the run, not only for neighbours
+func pkThreeIns(ms int64) plPack {
+	return plPack{Msgs: []plMsg{{Kind: "ins", Ms: ms}, {Kind: "ins", Ms: ms}, {Kind: "ins", Ms: ms}}, TickMs: ms, TickLg: 5}
+}
+func pkEqRuns(ms int64) plPack {
+	return plPack{Msgs: []plMsg{{Kind: "del", Ms: ms, Lg: 1}, {Kind: "del", Ms: ms, Lg: 1}, {Kind: "del", Ms: ms, Lg: 1}, {Kind: "ins", Ms: ms, Lg: 1}, {Kind: "ins", Ms: ms, Lg: 2}, {Kind: "ins", Ms: ms, Lg: 2}, {Kind: "ins", Ms: ms, Lg: 2}, {Kind: "del", Ms: ms, Lg: 4}}, TickMs: ms, TickLg: 5}
+}
 func pkMixedOrder(ms int64) plPack { // later message first: the pack is sorted by the reader
 	return plPack{Msgs: []plMsg{{Kind: "ins", Ms: ms, Lg: 3}, {Kind: "del", Ms: ms, Lg: 1}, {Kind: "ins", Ms: ms, Lg: 1}}, TickMs: ms, TickLg: 5}
 }
@@ -81,6 +89,7 @@ var plLetters = []plLetter{
 	{"createColl", pkCreateColl, false, false}, {"unsupported", pkUnsupported, false, false}, {"insPart", pkInsPart, true, false},
 	{"dropPart", pkDropPart, true, false}, {"dropColl", pkDropColl, false, true},
 	{"unsortedDropPart", pkUnsortedDropPart, true, false}, {"unsortedDropColl", pkUnsortedDropColl, false, true},
+	{"3ins=", pkThreeIns, false, false}, {"eqRuns", pkEqRuns, false, false},
 }
 
 func withPartition(c *plColl, knownDownstream bool) {
